@@ -19,6 +19,10 @@ type Options struct {
 	MaxBound int  // preemption bounds 0..MaxBound are completed in turn; <0 = no bound (single pass)
 	Cache    bool // happens-before state caching
 	Stop     func() bool
+	// Abort is polled every few thousand steps INSIDE an execution: when it returns true the execution is
+	// abandoned and the exploration ends as capped (one execution of a scenario with thousands of threads
+	// can take longer than the whole budget when the code under test is changed).
+	Abort func() bool
 	// StopEvery: how often (in executions) Stop is polled; 0 = every 256.
 	StopEvery int64
 	MaxSteps  int
@@ -66,7 +70,11 @@ func Explore(opt Options, body func(s *Sched), check func(x *Exec) bool) Stats {
 			}
 			prefix := stack[len(stack)-1]
 			stack = stack[:len(stack)-1]
-			x := Run(RunConfig{Prefix: prefix, Visit: visit, MaxSteps: opt.MaxSteps, Delay: opt.Delay}, body)
+			x := Run(RunConfig{Prefix: prefix, Visit: visit, MaxSteps: opt.MaxSteps, Delay: opt.Delay, Abort: opt.Abort}, body)
+			if x.TimedOut {
+				st.Capped = true
+				return st
+			}
 			st.Executions++
 			if len(x.Points) > st.MaxPoints {
 				st.MaxPoints = len(x.Points)
